@@ -8,6 +8,10 @@
 (* trace.ndjson = for every recorded run a header line (graph, modules     *)
 (* with a service, which services block in run) followed by its events;    *)
 (* every event carries a snapshot of the states of all W[m] and S[m].      *)
+(* Runs are driven wrapper by wrapper, or (services.Manager family) by    *)
+(* one services.Manager that stops everything on the first failure; the    *)
+(* final event carries the failure class of every W / S (1 =               *)
+(* modules.ErrStopProcess).                                                *)
 (* The history variables of ModulesRun (startAsked, stopAsked, startedOK,  *)
 (* sRan, wStarted) are rebuilt from the events.  TLC walks every run (one  *)
 (* initial state per run, so runs are checked in parallel) and prints one  *)
@@ -24,9 +28,10 @@ VARIABLES i,        \* line being looked at
           h,        \* line of the header of the current run
           tr,       \* transitive closure of the run's graph
           startAsked, stopAsked, startedOK, sRan, wStarted,
+          wRanSeen, \* the wrapper was seen Running in some snapshot
           wst, sst  \* previous snapshot
 
-vars == <<i, h, tr, startAsked, stopAsked, startedOK, sRan, wStarted, wst, sst>>
+vars == <<i, h, tr, startAsked, stopAsked, startedOK, sRan, wStarted, wRanSeen, wst, sst>>
 
 HMod == 1..Log[h].n
 HSvc == SeqSet(Log[h].svc)
@@ -38,7 +43,7 @@ False(n) == [m \in 1..n |-> FALSE]
 Init == /\ h \in Headers /\ i = h
         /\ tr = TransFn({<<e[1], e[2]>> : e \in SeqSet(Log[h].edges)}, 1..Log[h].n)
         /\ startAsked = False(Log[h].n) /\ stopAsked = False(Log[h].n) /\ startedOK = False(Log[h].n)
-        /\ sRan = False(Log[h].n) /\ wStarted = False(Log[h].n)
+        /\ sRan = False(Log[h].n) /\ wStarted = False(Log[h].n) /\ wRanSeen = False(Log[h].n)
         /\ wst = [m \in 1..Log[h].n |-> "New"] /\ sst = [m \in 1..Log[h].n |-> "New"]
 
 IsEvent(j) == j <= Len(Log) /\ Log[j].k = "e"
@@ -50,6 +55,7 @@ Bad(e, w, s) ==
     IN  named(\A x \in HMod : SvcReach(wst[x], w[x]) /\ SvcReach(sst[x], s[x]), "LegalTransitions")
         \cup named(\A x \in HMod \ HSvc : w[x] = "New" /\ s[x] = "New", "NoServiceNoWrapper")
         \cup named(ActiveKeepsDeps(tr, HSvc, s, stopAsked), "StopOrderState")
+        \cup named(FailureReported(HSvc, w, s), "FailureIsReported")
         \cup named(FailurePropagatesSafe(tr, HSvc, w, sRan, startAsked, wStarted), "FailurePropagates")
         \cup (IF e.ev = "istart"
               THEN named(~startAsked[m] /\ s[m] = "New" /\ w[m] = "Starting", "StartOnceWhileStarting")
@@ -62,6 +68,7 @@ Bad(e, w, s) ==
         \cup (IF e.ev = "final"
               THEN named(AllStopped(HSvc, w, s), "Termination")
                    \cup named(FailurePropagatesDone(tr, HSvc, w, sRan, wStarted), "FailurePropagatesDone")
+                   \cup named(\A x \in HSvc : (e.sf[x] = 1 /\ wRanSeen[x]) => e.wf[x] = 1, "StopProcessReported")
               ELSE {})
 
 Step ==
@@ -75,6 +82,7 @@ Step ==
               ELSE PrintT(ToJson([run |-> Log[h].id, line |-> i + 1, ev |-> e.ev, m |-> e.m, bad |-> bad, w |-> e.w, s |-> e.s,
                                    active_dependants |-> IF e.ev = "istop" THEN {x \in DependantsSvc(tr, HSvc, e.m) : s[x] \in Active} ELSE {}]))
            /\ wst' = w /\ sst' = s
+           /\ wRanSeen' = [x \in HMod |-> wRanSeen[x] \/ w[x] = "Running"]
            /\ startAsked' = IF e.ev = "istart" THEN [startAsked EXCEPT ![e.m] = TRUE] ELSE startAsked
            /\ stopAsked'  = IF e.ev = "istop" THEN [stopAsked EXCEPT ![e.m] = TRUE] ELSE stopAsked
            /\ startedOK'  = IF e.ev = "sstartret" /\ e.ok THEN [startedOK EXCEPT ![e.m] = TRUE] ELSE startedOK
